@@ -8,6 +8,7 @@ CONSTANTS
   MaxDeletes = 1
   Coords = {"A", "X"}
   MaxRestores = 1
+  MaxPauseOps = 0
   Shapes = {"plain", "dup", "empty"}
   GetDs = {}
 VIEW MCView
